@@ -15,8 +15,13 @@ parts of `afisafi!` macro definitions (whitespace-normalised) so that a change
 of the macro's semantics, which the generic Lean semantics could not see, is
 reported as a broken tie.
 
-usage: gen_codepoints.py <repo> <out.lean> [<fingerprints.json>]
-exit 0 ok; exit 4 = could not translate (message on stderr).
+usage: gen_codepoints.py <repo>|@check <out.lean>|- [<fingerprints.json>] [--attr-flags <out.lean>] [--constants <out.lean>]
+   @check = the REPO of the ./check script of this tree (workspaces rewrite it); `-` = do not write the code-point tables
+   --attr-flags  Rc/Gen/AttrFlags.lean: the (type code, FLAGS) column of the `path_attributes!` invocation with
+                 the `impl Flags` constants resolved, and TYPE_CODE / FLAGS of the two MP builders (C04, C07, C17)
+   --constants   Rc/Gen/Constants.lean: literal constants that models copy (UpdateBuilder::MAX_PDU, the batch
+                 threshold of take_message, the COFF offsets, AS_TRANS, the bounds of read_message / parse_frame)
+exit 0 ok; exit 4 = could not translate (message on stderr): a pattern that is not found is an error, never a kept value.
 """
 import hashlib
 import json
@@ -191,9 +196,167 @@ def lean_list(items):
     return "[" + ", ".join(items) + "]"
 
 
+def one(rx, src, what, flags=0):
+    """the single match of rx in src (anything else is untranslatable)"""
+    ms = list(re.finditer(rx, src, flags))
+    if len(ms) != 1:
+        raise Untranslatable("%s: expected exactly one match of %r, found %d" % (what, rx, len(ms)))
+    return ms[0]
+
+
+def int_expr(txt, what):
+    """a literal or a sum of literals (`6 + 42`)"""
+    parts = [p.strip() for p in txt.split("+")]
+    if not parts or not all(re.fullmatch(r"(0x[0-9a-fA-F_]+|0b[01_]+|[0-9_]+)(usize|u8|u16|u32)?", p) for p in parts):
+        raise Untranslatable("%s: not a sum of integer literals: %r" % (what, txt))
+    def lit(p):
+        p = re.sub(r"(usize|u8|u16|u32)$", "", p).replace("_", "")
+        return int(p, 2) if p.startswith("0b") else int(p, 16) if p.startswith("0x") else int(p)
+    return sum(lit(p) for p in parts)
+
+
+def write_if_changed(out, txt):
+    old = open(out).read() if os.path.exists(out) else None
+    if old != txt:
+        os.makedirs(os.path.dirname(out), exist_ok=True)
+        open(out, "w").write(txt)
+
+
+def gen_attr_flags(repo, out):
+    """the FLAGS column of path_attributes!( code => Name(Type), Flags::X, ... )"""
+    psrc = strip_comments(open(os.path.join(repo, "src/bgp/path_attributes.rs"), encoding="utf-8").read())
+    m = one(r"impl Flags \{", psrc, "impl Flags")
+    body = psrc[m.end():balanced(psrc, m.end() - 1, "{", "}") - 1]
+    consts = {}
+    for cm in re.finditer(r"const\s+([A-Z_]+)\s*:\s*u8\s*=\s*([^;]+);", body):
+        consts[cm.group(1)] = int_expr(cm.group(2), "Flags::" + cm.group(1))
+    for need in ("WELLKNOWN", "OPT_NON_TRANS", "OPT_TRANS", "EXTENDED_LEN", "PARTIAL"):
+        if need not in consts:
+            raise Untranslatable("impl Flags: constant %s not found" % need)
+    inv = [b for _, b in find_invocations(psrc, "path_attributes") if "$" not in b]
+    if len(inv) != 1:
+        raise Untranslatable("path_attributes!: %d invocations" % len(inv))
+    rows = []
+    # every row of the invocation must be understood: split at top-level commas in pairs
+    depth, cur, items = 0, "", []
+    for ch in inv[0]:
+        if ch == "(":
+            depth += 1
+        elif ch == ")":
+            depth -= 1
+        if ch == "," and depth == 0:
+            items.append(cur.strip()); cur = ""
+        else:
+            cur += ch
+    if cur.strip():
+        items.append(cur.strip())
+    if len(items) % 2:
+        raise Untranslatable("path_attributes!: odd number of comma-separated items (%d)" % len(items))
+    for a, b in zip(items[0::2], items[1::2]):
+        ma = re.fullmatch(r"(\d+)\s*=>\s*([A-Za-z0-9_]+)\s*\(.*\)", a, re.S)
+        mb = re.fullmatch(r"Flags::([A-Z_]+)", b)
+        if not ma or not mb or mb.group(1) not in consts:
+            raise Untranslatable("path_attributes!: row not understood: %r , %r" % (a[:60], b[:60]))
+        rows.append((int(ma.group(1)), ma.group(2), mb.group(1), consts[mb.group(1)]))
+    if len(rows) < 2:
+        raise Untranslatable("path_attributes!: no rows")
+    mp = []
+    for name in ("MpReachNlriBuilder", "MpUnreachNlriBuilder"):
+        m = one(r"impl<A> AttributeHeader for %s<A> \{" % name, psrc, "AttributeHeader for " + name)
+        b = psrc[m.end():balanced(psrc, m.end() - 1, "{", "}") - 1]
+        f = one(r"const FLAGS\s*:\s*u8\s*=\s*Flags::([A-Z_]+)\s*;", b, name + "::FLAGS").group(1)
+        t = one(r"const TYPE_CODE\s*:\s*u8\s*=\s*(\d+)\s*;", b, name + "::TYPE_CODE").group(1)
+        if f not in consts:
+            raise Untranslatable("%s::FLAGS = Flags::%s unknown" % (name, f))
+        mp.append((int(t), consts[f]))
+    L = ["/- GENERATED by tools/gen_codepoints.py --attr-flags from src/bgp/path_attributes.rs on every run. Do not edit. -/",
+         "namespace Rc.Gen", "",
+         "/-- the constants of `impl Flags` -/",
+         "def flagWellknown : Nat := %d" % consts["WELLKNOWN"],
+         "def flagOptNonTrans : Nat := %d" % consts["OPT_NON_TRANS"],
+         "def flagOptTrans : Nat := %d" % consts["OPT_TRANS"],
+         "def flagExtendedLen : Nat := %d" % consts["EXTENDED_LEN"],
+         "def flagPartial : Nat := %d" % consts["PARTIAL"], "",
+         "/-- `path_attributes!` rows in source order: (type code, value of the `Flags::` constant named in the row) -/",
+         "def attrFlags : List (Nat × Nat) := " + lean_list(["(%d, %d)" % (c, v) for c, _, _, v in rows]),
+         "/-- the same rows: (type code, variant name, name of the constant) - for messages only -/",
+         "def attrFlagNames : List (Nat × String × String) := " + lean_list(["(%d, %s, %s)" % (c, lean_str(n), lean_str(f)) for c, n, f, _ in rows]),
+         "/-- `AttributeHeader for MpReachNlriBuilder / MpUnreachNlriBuilder`: (TYPE_CODE, FLAGS) -/",
+         "def mpAttrFlags : List (Nat × Nat) := " + lean_list(["(%d, %d)" % x for x in mp]), "",
+         "/-- the table as a function of the type code (first row wins, as a `match` would) -/",
+         "def attrFlagsOf (code : Nat) : Option Nat := (attrFlags.find? (fun r => r.1 == code)).map (·.2)", "",
+         "end Rc.Gen", ""]
+    write_if_changed(out, "\n".join(L))
+    print("translated %d path_attributes! rows with flags" % len(rows))
+
+
+def gen_constants(repo, out):
+    def src(rel):
+        return strip_comments(open(os.path.join(repo, "src", rel), encoding="utf-8").read())
+    ub = src("bgp/message/update_builder.rs")
+    max_pdu = int_expr(one(r"const MAX_PDU\s*:\s*usize\s*=\s*([^;]+);", ub, "UpdateBuilder::MAX_PDU").group(1), "MAX_PDU")
+    batch = int_expr(one(r"if compose_len > ([0-9_]+) \{", ub, "take_message batch threshold").group(1), "batch threshold")
+    bmp = src("bmp/message.rs")
+    bmp_coff = int_expr(one(r"const COFF\s*:\s*usize\s*=\s*([^;]+);", bmp, "bmp COFF").group(1), "bmp COFF")
+    op = src("bgp/message/open.rs")
+    open_coff = int_expr(one(r"const COFF\s*:\s*usize\s*=\s*([^;]+);", op, "open.rs COFF").group(1), "open COFF")
+    as_trans = int_expr(one(r"const AS_TRANS\s*:\s*u16\s*=\s*([^;]+);", op, "AS_TRANS").group(1), "AS_TRANS")
+    nt = src("bgp/message/notification.rs")
+    notif_coff = int_expr(one(r"const COFF\s*:\s*usize\s*=\s*([^;]+);", nt, "notification.rs COFF").group(1), "notif COFF")
+    mm = src("bgp/message/mod.rs")
+    rm = fn_body(mm, r"pub fn read_message<", "bgp/message/mod.rs")
+    rm_sig = one(r"pub fn read_message<[^{]*?\[u8;\s*([0-9_]+)\]", mm, "read_message buffer", re.S)
+    rm_buf = int_expr(rm_sig.group(1), "read_message buffer")
+    rm_first = int_expr(one(r"read_exact\(&mut buf\[\.\.([0-9_]+)\]\)", rm, "read_message first read").group(1), "first read")
+    rm_min = int_expr(one(r"if len < ([0-9_]+) \{", rm, "read_message lower bound").group(1), "lower bound")
+    rm_max = int_expr(one(r"if len > ([0-9_]+) \{", rm, "read_message upper bound").group(1), "upper bound")
+    ss = src("bgp/fsm/session.rs")
+    pf = fn_body(ss, r"fn parse_frame\(&mut self\)", "bgp/fsm/session.rs")
+    pf_min = int_expr(one(r"if len < ([0-9_]+) \{", pf, "parse_frame lower bound").group(1), "parse_frame lower bound")
+    pf_hdr = int_expr(one(r"buf\.remaining\(\) >= ([0-9_ +]+) \{", pf, "parse_frame header peek").group(1), "parse_frame header peek")
+    pf_sub = int_expr(one(r"\(len as usize\) - ([0-9_]+)\)", pf, "parse_frame subtraction").group(1), "parse_frame subtraction")
+    vals = [("maxPdu", max_pdu, "`UpdateBuilder::MAX_PDU` (update_builder.rs)"),
+            ("batchThreshold", batch, "`if compose_len > N` in `take_message` (update_builder.rs)"),
+            ("bmpCoff", bmp_coff, "`const COFF` of bmp/message.rs (common header + per-peer header)"),
+            ("openCoff", open_coff, "`const COFF` of open.rs"),
+            ("notifCoff", notif_coff, "`const COFF` of notification.rs"),
+            ("asTrans", as_trans, "`const AS_TRANS` of open.rs"),
+            ("readMessageBuf", rm_buf, "the `[u8; N]` buffer of `read_message` (message/mod.rs)"),
+            ("readMessageFirst", rm_first, "`read_exact(&mut buf[..N])`: octets read before the length is looked at"),
+            ("readMessageMin", rm_min, "`if len < N` of `read_message`"),
+            ("readMessageMax", rm_max, "`if len > N` of `read_message`"),
+            ("parseFrameMin", pf_min, "`if len < N` of `Connection::parse_frame` (session.rs)"),
+            ("parseFramePeek", pf_hdr, "`buf.remaining() >= N` of `parse_frame` (marker + length)"),
+            ("parseFrameSub", pf_sub, "`(len as usize) - N` of `parse_frame`")]
+    L = ["/- GENERATED by tools/gen_codepoints.py --constants from the current sources on every run. Do not edit. -/",
+         "namespace Rc.Gen", ""]
+    for n, v, doc in vals:
+        L.append("/-- %s -/" % doc)
+        L.append("def %s : Nat := %d" % (n, v))
+    L += ["", "end Rc.Gen", ""]
+    write_if_changed(out, "\n".join(L))
+    print("translated %d constants" % len(vals))
+
+
 def main():
-    repo, out = sys.argv[1], sys.argv[2]
-    fp_out = sys.argv[3] if len(sys.argv) > 3 else None
+    argv = list(sys.argv)
+    extra = {}
+    for opt in ("--attr-flags", "--constants"):
+        if opt in argv:
+            i = argv.index(opt)
+            extra[opt] = argv[i + 1]
+            del argv[i:i + 2]
+    repo, out = argv[1], argv[2]
+    if repo == "@check":
+        here = os.path.dirname(os.path.dirname(os.path.abspath(__file__)))
+        repo = re.search(r'^REPO = "([^"]+)"', open(os.path.join(here, "check")).read(), re.M).group(1)
+    if "--attr-flags" in extra:
+        gen_attr_flags(repo, extra["--attr-flags"])
+    if "--constants" in extra:
+        gen_constants(repo, extra["--constants"])
+    if out == "-":
+        return
+    fp_out = argv[3] if len(argv) > 3 else None
     srcdir = os.path.join(repo, "src")
     tables = []
     files = {}
